@@ -714,6 +714,116 @@ fn lit_case(rt: &Runtime<NoCtx>, drv: &mut Driver, seed: u64, index: u64, rep: &
     rep.hist("literal-variables", answer);
 }
 
+// ------------------------------------------------------------ declarations
+
+/// Items of one module and the variables of one function, with names drawn
+/// from a small pool so that they collide: `TcRules.insertDecl` (the model of
+/// `ScopeGraph::insert_declaration`, keyed by (scope, name) whatever the kind)
+/// against the real checker's "declared multiple times".
+fn decl_case(rt: &Runtime<NoCtx>, drv: &mut Driver, seed: u64, index: u64, rep: &mut Report) {
+    let mut p = Prng::for_case(seed ^ 0x6465_636c, index);
+    let mut src = String::new();
+    let mut stubs: Vec<String> = Vec::new();
+    let mut defs: Vec<String> = Vec::new();
+    let nitems = p.below(4);
+    let mut next_scope = 1u64;
+    for _ in 0..nitems {
+        let name = p.below(3);
+        match p.below(4) {
+            0 => {
+                src.push_str(&format!("fn q{name}() {{ }}\n"));
+                stubs.push(format!("0:{name}:fnstub"));
+                defs.push(format!("0:{name}:fn"));
+            }
+            1 => {
+                src.push_str(&format!("const q{name}: i32 = 1;\n"));
+                stubs.push(format!("0:{name}:conststub"));
+                defs.push(format!("0:{name}:const"));
+            }
+            2 => {
+                src.push_str(&format!("record q{name} {{ a: i32 }}\n"));
+                stubs.push(format!("0:{name}:typestub0"));
+                defs.push(format!("0:{name}:type0"));
+            }
+            _ => {
+                // an enum: its variants live in the type's own scope
+                let sc = next_scope;
+                next_scope += 1;
+                let nv = 1 + p.below(3);
+                let vs: Vec<u64> = (0..nv).map(|_| 10 + p.below(2)).collect();
+                src.push_str(&format!("enum q{name} {{ {} }}\n", vs.iter().map(|v| format!("W{v}")).collect::<Vec<_>>().join(", ")));
+                stubs.push(format!("0:{name}:typestub0"));
+                for v in &vs {
+                    stubs.push(format!("{sc}:{v}:variantstub"));
+                }
+                defs.push(format!("0:{name}:type0"));
+                for v in &vs {
+                    defs.push(format!("{sc}:{v}:variant"));
+                }
+            }
+        }
+    }
+    // one function: parameters and the top level of the body share a scope;
+    // every nested block is a scope of its own
+    let fscope = next_scope;
+    next_scope += 1;
+    let mut locals: Vec<String> = Vec::new();
+    let np = p.below(3);
+    let params: Vec<u64> = (0..np).map(|_| 20 + p.below(3)).collect();
+    for x in &params {
+        locals.push(format!("{fscope}:{x}:local"));
+    }
+    let mut body = String::new();
+    let mut stack = vec![fscope];
+    let nst = p.below(6);
+    for _ in 0..nst {
+        match p.below(5) {
+            0 if stack.len() < 3 => {
+                body.push_str("if true { ");
+                stack.push(next_scope);
+                next_scope += 1;
+            }
+            1 if stack.len() > 1 => {
+                body.push_str("}; ");
+                stack.pop();
+            }
+            _ => {
+                let x = 20 + p.below(3);
+                body.push_str(&format!("let w{x} = 1; "));
+                locals.push(format!("{}:{x}:local", stack.last().unwrap()));
+            }
+        }
+    }
+    while stack.len() > 1 {
+        body.push_str("}; ");
+        stack.pop();
+    }
+    src.push_str(&format!(
+        "fn main({}) {{ {body}}}\n",
+        params.iter().map(|x| format!("w{x}: i32")).collect::<Vec<_>>().join(", ")
+    ));
+    stubs.push("0:99:fnstub".into());
+    defs.push("0:99:fn".into());
+    let all: Vec<String> = stubs.into_iter().chain(defs).chain(locals).collect();
+    let answer = drv.ask(&format!("c07 decl {}", all.join(",")));
+    let real = compile(rt, &src, false);
+    rep.evaluations += 1;
+    let input = json!({"seed": seed, "index": index, "src": src, "decl": all.join(","), "model": answer});
+    let model_ok = answer == "ok";
+    match &real {
+        Outcome::Ok if model_ok => {}
+        Outcome::TypeError(line) if !model_ok && error_category(line) == "declared-twice" => {}
+        Outcome::Ok => rep.violation(
+            "a script that declares a name twice in one scope compiled",
+            "accepted:redeclaration-table",
+            input,
+        ),
+        other => rep.mismatch(&format!("TcRules.insertDecl says `{answer}`, the compiler {other:?}"), input),
+    }
+    rep.class(format!("decl:{}:{}:{}", nitems, params.len(), answer.split(' ').next().unwrap_or("")));
+    rep.hist("declaration-table", if model_ok { "accepted" } else { "declared twice" });
+}
+
 // ------------------------------------------------------------ anonymous records
 
 /// Record literals `{ a: 1, b: true }` (record variables of the checker) used
@@ -877,6 +987,41 @@ fn gen_case(rt: &Runtime<NoCtx>, drv: &mut Driver, seed: u64, index: u64, rep: &
             format!("{vt1}:{},{vt2}:{}", lean_ty(t1), lean_ty(t2)),
         ),
     };
+    // … and the accept / reject types of a filtermap (inferred) or of a
+    // function returning an explicit Verdict
+    let (what, src, pairs) = if p.chance(1, 4) {
+        let (v3, vt3) = value(&mut p, t1, r2);
+        let (v4, vt4) = value(&mut p, t2, r1);
+        match p.below(5) {
+            0 => (
+                "filtermap-two-accepts",
+                format!("filtermap fm(c: bool) {{ if c {{ accept {v1} }}; if !c {{ reject {v2} }}; accept {v3} }}\n"),
+                format!("{vt1}:{vt3}"),
+            ),
+            1 => (
+                "filtermap-two-rejects",
+                format!("filtermap fm(c: bool) {{ if c {{ reject {v2} }}; if !c {{ accept {v1} }}; reject {v4} }}\n"),
+                format!("{vt2}:{vt4}"),
+            ),
+            2 => (
+                "filtermap-accept-with-and-without-value",
+                format!("filtermap fm(c: bool) {{ if c {{ accept {v1} }}; accept }}\n"),
+                format!("{vt1}:unit"),
+            ),
+            3 => (
+                "verdict-function",
+                format!("fn f(c: bool) -> Verdict[{t1}, {t2}] {{ if c {{ accept {v1} }}; reject {v2} }}\n"),
+                format!("{vt1}:{},{vt2}:{}", lean_ty(t1), lean_ty(t2)),
+            ),
+            _ => (
+                "filtermap-result-used",
+                format!("filtermap fm(c: bool) {{ if c {{ accept {v1} }}; reject {v2} }}\nfn g(c: bool) -> Verdict[{t1}, {t2}] {{ fm(c) }}\n"),
+                format!("{vt1}:{},{vt2}:{}", lean_ty(t1), lean_ty(t2)),
+            ),
+        }
+    } else {
+        (what, src, pairs)
+    };
     let request = format!("c07 compat {pairs}");
     let answer = drv.ask(&request);
     let real = compile(rt, &src, false);
@@ -980,8 +1125,20 @@ fn unify_case(drv: &mut Driver, seed: u64, index: u64, rep: &mut Report) {
             }
             _ => {
                 let a = ty(&mut p, &vars, ndefs, 0);
-                let b = ty(&mut p, &vars, ndefs, 0);
-                ops.push(format!("(unify {a} {b})"));
+                // the second type: unrelated, or one that has a chance to unify
+                let b = match p.below(8) {
+                    0 => a.clone(),
+                    1 if !vars.is_empty() => vars[p.below(vars.len() as u64) as usize].2.clone(),
+                    2 => "never".to_string(),
+                    3 if a.starts_with("(n 12") => "(n 12 (n 6))".to_string(),
+                    4 if p.chance(1, 6) => format!("(e {})", p.below(2)),
+                    _ => ty(&mut p, &vars, ndefs, 0),
+                };
+                if p.chance(1, 2) {
+                    ops.push(format!("(unify {a} {b})"));
+                } else {
+                    ops.push(format!("(unify {b} {a})"));
+                }
             }
         }
     }
@@ -1058,6 +1215,7 @@ fn worker(args: &[String]) {
             "assign" => assign_case(&mut drv, i, &mut rep),
             "rec" => rec_case(&rt, &mut drv, seed, i, &mut rep),
             "gen" => gen_case(&rt, &mut drv, seed, i, &mut rep),
+            "decl" => decl_case(&rt, &mut drv, seed, i, &mut rep),
             _ => {}
         }
     }
@@ -1198,9 +1356,10 @@ fn main() {
             run_phase("lit", seed, lits, 1000, jobs, &mut rep);
             run_phase("rec", seed, recs, 1000, jobs, &mut rep);
             run_phase("gen", seed, recs, 1000, jobs, &mut rep);
+            run_phase("decl", seed, recs, 1000, jobs, &mut rep);
             run_phase("prog", seed, progs, 250, jobs, &mut rep);
             rep.notes.push(format!(
-                "phases: ops {} (whole table), match {matches}, unify {unifies}, literal variables {lits}, record literals {recs}, generic instantiation {recs}, programs {progs} (evaluations count judged mutants, not programs)",
+                "phases: ops {} (whole table), match {matches}, unify {unifies}, literal variables {lits}, record literals {recs}, generic instantiation {recs}, declaration tables {recs}, programs {progs} (evaluations count judged mutants, not programs)",
                 ops_total()
             ));
             rep.emit();
